@@ -19,8 +19,10 @@ edit to any feature of any definition of the closure changes the meaning (the ge
 `c01.py` are built the same way: every feature flows into the returned value).
 
 Program class (`Tracked`): the root is automatically versioned and everything named in its closure
-is a memento function (automatically **or explicitly** versioned), a plain function of the package, or a
-variable of a supported type. For explicitly versioned functions the user's side of the contract is the
+is a memento function (automatically **or explicitly** versioned), a plain function of the package, a
+variable of a supported type, or a name the modules do not define (builtins such as `len`: every real program has
+them; `UndefVarStable P P'`: such a name is not a *variable* in the other edition — remark R2 is the witness that this
+cannot be dropped; it may become a function, function digests cover their names). For explicitly versioned functions the user's side of the contract is the
 hypothesis `Disciplined P P'`: a function that carries the same explicit version string in both editions
 has the same definition in both (nothing is assumed about what lies beneath it: the closure walks through
 explicitly versioned functions, so everything beneath is covered by the digests). Hash idealisation: SHA-256 truncated to 16 hex digits is an injective function with
@@ -48,21 +50,21 @@ namespace Memento.Version
     name of `f`'s closure (its functions and everything they name) to the same definition. -/
 theorem version_determines_closure (H : Ser → List Char) (hinj : Function.Injective H)
     (hw : ∀ s, (H s).length = 16) (P P' : Prog) (f : Name) (hT : Tracked P f) (hT' : Tracked P' f)
-    (hd : Disciplined P P') (hv : version H P id f = version H P' id f) :
+    (hd : Disciplined P P') (hu : UndefVarStable P P') (hv : version H P id f = version H P' id f) :
     (∀ n, InClos P f n → lookup P' n = lookup P n) ∧ (∀ n, InClos P' f n → lookup P n = lookup P' n) := by
   have h1 : versionInput H P id f = versionInput H P' id f := by
     have := hinj hv
     simpa using this
   have h2 : hashList H P f = hashList H P' f :=
     flatten_inj_uniform (by decide : 0 < 16) _ _ (hashList_width hw hT) (hashList_width hw hT') h1
-  have ha : Agree H P P' f := ⟨hinj, hT, hT', hd, h2⟩
+  have ha : Agree H P P' f := ⟨hinj, hT, hT', hd, hu, h2⟩
   exact ⟨fun n hn => ha.lookup_clos hn, fun n hn => ha.symm.lookup_clos hn⟩
 
 /-- **closure determines meaning** (here directly from the agreement of digests) and hence
     **equal version ⇒ equal meaning**, at every evaluation depth and for every argument. -/
 theorem equal_version_equal_meaning (H : Ser → List Char) (hinj : Function.Injective H)
     (hw : ∀ s, (H s).length = 16) (P P' : Prog) (f : Name) (hT : Tracked P f) (hT' : Tracked P' f)
-    (hd : Disciplined P P') (ord ord' : List Name → List Name) (ho : OrdOK ord) (ho' : OrdOK ord')
+    (hd : Disciplined P P') (hu : UndefVarStable P P') (ord ord' : List Name → List Name) (ho : OrdOK ord) (ho' : OrdOK ord')
     (hv : version H P ord f = version H P' ord' f) (k a : Nat) :
     eval P k f a = eval P' k f a := by
   rw [version_order_independent H P ord id ho ordOK_id, version_order_independent H P' ord' id ho' ordOK_id] at hv
@@ -71,7 +73,7 @@ theorem equal_version_equal_meaning (H : Ser → List Char) (hinj : Function.Inj
     simpa using this
   have h2 : hashList H P f = hashList H P' f :=
     flatten_inj_uniform (by decide : 0 < 16) _ _ (hashList_width hw hT) (hashList_width hw hT') h1
-  exact Agree.eval_eq ⟨hinj, hT, hT', hd, h2⟩ a k f (Or.inl (Or.inl rfl))
+  exact Agree.eval_eq ⟨hinj, hT, hT', hd, hu, h2⟩ a k f (Or.inl (Or.inl rfl))
 
 /-! ### the store-level statement -/
 
@@ -81,8 +83,9 @@ abbrev VStore := List ((Name × List Char × Nat) × Res)
 def VStore.get (s : VStore) (key : Name × List Char × Nat) : Option Res :=
   (s.find? (fun e => e.1 == key)).map (·.2)
 
-/-- a history of editions in which explicit versions are used with discipline: any two editions are `Disciplined` -/
-def DisciplinedHistory (E : Prog → Prop) : Prop := ∀ P P', E P → E P' → Disciplined P P'
+/-- a history of editions in which explicit versions are used with discipline and no name turns from undefined into a
+    variable (or back): any two editions are `Disciplined` and `UndefVarStable` -/
+def DisciplinedHistory (E : Prog → Prop) : Prop := ∀ P P', E P → E P' → Disciplined P P' ∧ UndefVarStable P P'
 
 /-- every entry was computed by *some* tracked edition of the history `E` under the version that edition gave
     the function (the store may have been filled by any number of earlier editions, in any order) -/
@@ -121,7 +124,7 @@ theorem no_stale (H : Ser → List Char) (hinj : Function.Injective H) (hw : ∀
       subst hg
       obtain ⟨P0, ord0, hP0, ho0, hT0, hv0, hr0⟩ := hs _ _ _ _ hmem
       rw [hr0]
-      exact equal_version_equal_meaning H hinj hw P0 P f' hT0 hT (hE P0 P hP0 hP) ord0 ord ho0 ho hv0 k a'
+      exact equal_version_equal_meaning H hinj hw P0 P f' hT0 hT (hE P0 P hP0 hP).1 (hE P0 P hP0 hP).2 ord0 ord ho0 ho hv0 k a'
 
 /-- the storing side: adding the result the current edition computes keeps the store `FilledByEditions` -/
 theorem store_preserves (H : Ser → List Char) (k : Nat) (E : Prog → Prop) (s : VStore) (hs : FilledByEditions H k E s)
@@ -230,10 +233,10 @@ example : Tracked exT 0 := by
   · rcases hr with rfl | rfl | rfl
     · exact Or.inr (Or.inl ⟨11, [2, 5], rfl⟩)
     · exact Or.inr (Or.inl ⟨13, [], rfl⟩)
-    · exact Or.inr (Or.inr ⟨7, rfl⟩)
+    · exact Or.inr (Or.inr (Or.inl ⟨7, rfl⟩))
   · rcases hr with rfl | rfl
     · exact Or.inl ⟨none, 12, [0], rfl⟩
-    · exact Or.inr (Or.inr ⟨7, rfl⟩)
+    · exact Or.inr (Or.inr (Or.inl ⟨7, rfl⟩))
   · subst hr; exact Or.inl ⟨none, 10, [1, 3, 5], rfl⟩
 
 /-- an edit beneath a helper changes the version input (so, for injective `H`, the version) -/
@@ -256,7 +259,7 @@ theorem exTE_tracked (g : Tok) (e : List Char) :
   rcases hp with ⟨rfl, rfl⟩ | ⟨rfl, rfl⟩ | ⟨rfl, rfl⟩ <;>
     simp only [Def.refs, List.mem_cons, List.not_mem_nil, or_false] at hr
   · subst hr; exact Or.inl ⟨some e, g, [5], rfl⟩
-  · subst hr; exact Or.inr (Or.inr ⟨7, rfl⟩)
+  · subst hr; exact Or.inr (Or.inr (Or.inl ⟨7, rfl⟩))
 
 example : Tracked exTE 0 ∧ Tracked exTE' 0 := ⟨exTE_tracked 20 ['1'], exTE_tracked 21 ['2']⟩
 
@@ -276,5 +279,25 @@ example : Disciplined exTE exTE' := by
       · simp [exTE, lookup, Ne.symm hg, Ne.symm h0, Ne.symm h5] at h1
 
 example : versionInput exH exTE id 0 ≠ versionInput exH exTE' id 0 := by decide +kernel
+
+/-- a program that uses a builtin (name 9 is not defined by the modules) is tracked -/
+def exTB : Prog := [(0, .memento none 10 [9, 5]), (5, .var (some 7))]
+
+example : Tracked exTB 0 := by
+  refine ⟨⟨10, [9, 5], rfl⟩, ?_⟩
+  intro p r _ href
+  obtain ⟨d, hd, hr⟩ := href
+  have hp := lookup_some_mem hd
+  simp only [exTB, List.mem_cons, Prod.mk.injEq, List.not_mem_nil, or_false] at hp
+  rcases hp with ⟨rfl, rfl⟩ | ⟨rfl, rfl⟩ <;>
+    simp only [Def.refs, List.mem_cons, List.not_mem_nil, or_false] at hr
+  rcases hr with rfl | rfl
+  · exact Or.inr (Or.inr (Or.inr rfl))
+  · exact Or.inr (Or.inr (Or.inl ⟨7, rfl⟩))
+
+/-- R2's two editions are exactly what `UndefVarStable` excludes -/
+example : ¬ UndefVarStable exR2a exR2b := by
+  intro h
+  exact (h 2).1 rfl 5 rfl
 
 end Memento.Version
